@@ -136,55 +136,64 @@ def _write_report(rows, only):
         f.write("\n")
 
 
+def _one_patch(args, pt, jobs):
+    """Apply one patch to its own scratch copy, run the test-suite and the quick check.  Returns (row, rc)."""
+    scratch = _scratch_copy(args.repo)
+    try:
+        ap = subprocess.run(["patch", "-p1", "-s", "-i", pt["path"]], cwd=scratch, capture_output=True, text=True)
+        if ap.returncode != 0:
+            return dict(pt, result="PATCH-DOES-NOT-APPLY", detail=ap.stdout[-300:] + ap.stderr[-300:]), 2
+        tests = "skipped"
+        if not os.environ.get("VERIF_SKIP_TESTS"):
+            tp = subprocess.run([PY312, "-m", "pytest", "-q", "-p", "no:cacheprovider", "--timeout=900", "-x"], cwd=scratch,
+                                capture_output=True, text=True, timeout=1800)
+            tests = tp.stdout.strip().splitlines()[-1] if tp.stdout.strip() else "no output"
+            if tp.returncode != 0:
+                return dict(pt, result="TESTS-FAIL", detail=tests), 2
+        rdir = os.path.join(scratch, "_replays")
+        cp = subprocess.run([CHECK, pt["prop"], "--tier", "quick", "--repo", scratch, "--no-evidence", "--replay-dir", rdir,
+                             "--jobs", str(jobs)], capture_output=True, text=True, timeout=5400)
+        sigs = [l.strip() for l in cp.stderr.splitlines() if l.strip().startswith("signature:")]
+        alarm = cp.returncode == 1 and "VIOLATION property=%s" % pt["prop"] in cp.stdout
+        rc = 0
+        if cp.returncode == 2:
+            res = "HARNESS-ERROR"
+            rc = 2
+        elif pt["expect"] == "not-claimed":
+            res = "caught (not claimed)" if alarm else "not caught (by decision, see meta.json)"
+        elif pt["expect"] == "alarm-probabilistic":
+            res = "caught" if alarm else "not caught in the quick tier (probabilistic there, or thorough tier only - see meta.json)"
+        elif pt["expect"] == "alarm":
+            res = "caught" if alarm else "MISSED"
+            if not alarm:
+                rc = 2
+        else:
+            res = "silent" if cp.returncode == 0 else "FALSE-ALARM"
+            if cp.returncode != 0:
+                rc = 2
+        detail = "; ".join(s.replace("signature: ", "") for s in sigs[:3]) or cp.stdout.strip()[-300:]
+        return dict(pt, result=res, tests=tests, detail=detail), rc
+    finally:
+        shutil.rmtree(scratch, ignore_errors=True)
+
+
 def sensitivity(args) -> int:
+    """VERIF_SENS_PAR patches are processed at a time (default 2: the serial stretches of one quick check
+    - shrinking, replay in fresh interpreters - overlap with the parallel stretches of the other)."""
+    from concurrent.futures import ThreadPoolExecutor
+
     only = os.environ.get("VERIF_ONLY")
+    par = max(1, int(os.environ.get("VERIF_SENS_PAR") or 2))
+    jobs = args.jobs or (os.cpu_count() or 4)
+    todo = [pt for pt in _patch_list() if not only or only in pt["id"]]
     rows = []
     rc = 0
-    for pt in _patch_list():
-        if only and only not in pt["id"]:
-            continue
-        scratch = _scratch_copy(args.repo)
-        try:
-            ap = subprocess.run(["patch", "-p1", "-s", "-i", pt["path"]], cwd=scratch, capture_output=True, text=True)
-            if ap.returncode != 0:
-                rows.append(dict(pt, result="PATCH-DOES-NOT-APPLY", detail=ap.stdout[-300:] + ap.stderr[-300:]))
-                rc = 2
-                continue
-            tests = "skipped"
-            if not os.environ.get("VERIF_SKIP_TESTS"):
-                tp = subprocess.run([PY312, "-m", "pytest", "-q", "-p", "no:cacheprovider", "--timeout=900", "-x"], cwd=scratch,
-                                    capture_output=True, text=True, timeout=1800)
-                tests = tp.stdout.strip().splitlines()[-1] if tp.stdout.strip() else "no output"
-                if tp.returncode != 0:
-                    rows.append(dict(pt, result="TESTS-FAIL", detail=tests))
-                    rc = 2
-                    continue
-            rdir = os.path.join(scratch, "_replays")
-            cp = subprocess.run([CHECK, pt["prop"], "--tier", "quick", "--repo", scratch, "--no-evidence", "--replay-dir", rdir],
-                                capture_output=True, text=True, timeout=3600)
-            sigs = [l.strip() for l in cp.stderr.splitlines() if l.strip().startswith("signature:")]
-            alarm = cp.returncode == 1 and "VIOLATION property=%s" % pt["prop"] in cp.stdout
-            if cp.returncode == 2:
-                res = "HARNESS-ERROR"
-                rc = 2
-            elif pt["expect"] == "not-claimed":
-                res = "caught (not claimed)" if alarm else "not caught (by decision, see meta.json)"
-            elif pt["expect"] == "alarm-probabilistic":
-                res = "caught" if alarm else "not caught in the quick tier (probabilistic there, or thorough tier only - see meta.json)"
-            elif pt["expect"] == "alarm":
-                res = "caught" if alarm else "MISSED"
-                if not alarm:
-                    rc = 2
-            else:
-                res = "silent" if cp.returncode == 0 else "FALSE-ALARM"
-                if cp.returncode != 0:
-                    rc = 2
-            detail = "; ".join(s.replace("signature: ", "") for s in sigs[:3]) or cp.stdout.strip()[-300:]
-            rows.append(dict(pt, result=res, tests=tests, detail=detail))
+    with ThreadPoolExecutor(max_workers=par) as ex:
+        for pt, (row, r) in zip(todo, ex.map(lambda pt: _one_patch(args, pt, jobs), todo)):
+            rows.append(row)
+            rc = max(rc, r)
             _write_report(rows, only)
-            eprint("[sensitivity] %-55s %-6s %-13s %s" % (pt["id"], pt["expect"], res, detail[:140]))
-        finally:
-            shutil.rmtree(scratch, ignore_errors=True)
+            eprint("[sensitivity] %-55s %-6s %-13s %s" % (pt["id"], pt["expect"], row["result"], (row.get("detail") or "")[:140]))
     _write_report(rows, only)
     for r in rows:
         print("%-58s %-4s expect=%-6s %s" % (r["id"], r["prop"], r["expect"], r["result"]))
